@@ -31,6 +31,18 @@ def raw_version_payload(gen: int, version, update_byte: int) -> bytes:
     return b"\xff\x30" + bytes([update_byte if version[0] else 0, len(text)]) + text
 
 
+def init_failed(ck, rig, r, where: str) -> None:
+    """A scenario that starts with init() against an answering console must not be skipped silently when init() fails"""
+    if getattr(ck, "_init_failures", 0) < 3:
+        ck._init_failures = getattr(ck, "_init_failures", 0) + 1
+        c = rig.console
+        ck.violation("the client does not initialise against an answering console",
+                     {"kind": "init", "gen": rig.gen, "scenario": where, "trigger": {"class": "init-failed", "gen": rig.gen},
+                      "failure": f"init() -> {r}",
+                      "console": {"stride_pad": c.stride_pad, "dirty_names": c.dirty_names, "zones": dict(rig.inst.zones),
+                                  "acs": [(a.number, a.name) for a in rig.inst.acs], "version": list(rig.inst.version[1])}})
+
+
 def rand_bits(rng, n):
     b = [rng.random() < 0.7 for _ in range(n)]
     return b
@@ -549,6 +561,7 @@ def check_c10(tier: str) -> int:
         inst = rand_installation(gen, rng)
         rig = console.ApiRig(inst, rng, record_sends=True)
         rig.console.stride_pad = rng.choice([0, 0, 2, 4, 12]) if gen == 5 else 0      # consoles with longer status records
+        rig.console.dirty_names = rng.random() < 0.4                                   # stale bytes after the NUL of a name
         rig.client_err = {}
         script = [("init",), ("connected",)] + [answer_stimulus(inst, k) for k in range(4)]
         for a in inst.acs:       # the console answers the error-text requests the AC status answer provokes
@@ -558,6 +571,7 @@ def check_c10(tier: str) -> int:
         try:
             r, _ = rig.init()
             if r != ("ok", True):
+                init_failed(ck, rig, r, "status histories (C10)")
                 continue
             ids = [a.number for a in inst.acs]
             for a in inst.acs:
@@ -830,6 +844,7 @@ def check_c14(tier: str) -> int:
         try:
             r, _ = rig.init()
             if r != ("ok", True):
+                init_failed(ck, rig, r, "refresh after reconnection (C14)")
                 continue
             expect_init_errors(rig)
 
@@ -937,6 +952,7 @@ def check_c14(tier: str) -> int:
         try:
             r, _ = rig.init()
             if r != ("ok", True):
+                init_failed(ck, rig, r, "AT4 poll histories (C14)")
                 continue
             if rng.random() < 0.3:
                 # a client that was shut down and initialised again polls like a fresh one
